@@ -179,9 +179,26 @@ fn run_c17(line: &str) -> String {
         // the type-erased path must agree with the generic one (C01 clause, observed here for free)
         let erased: &dyn emit::filter::ErasedFilter = &map;
         let r2 = with_event(&mdl, &ps, |evt| erased.matches(&evt));
+        // the same properties as a concatenation (`first.and_props(rest)`, what macro events joined with ambient
+        // context look like), through the generic path: the level is still the FIRST `lvl`, parseable or not
+        let r3 = with_event(&mdl, &ps, |evt| matches_split(&map, evt));
+        if r3 != r {
+            return Some(format!("{}\tFAIL:and_props-split-differs({})", r, r3));
+        }
         Some(if r == r2 { format!("{}", r) } else { format!("{}\tFAIL:erased-path-differs({})", r, r2) })
     })()
     .unwrap_or_else(|| "bad-case".into())
+}
+
+/// evaluate `f` on the event with its property slice re-expressed as `first.and_props(rest)`
+fn matches_split<F: emit::Filter>(f: &F, evt: emit::Event<&[(&str, emit::Value)]>) -> bool {
+    use emit::Props;
+    let all: &[(&str, emit::Value)] = *evt.props();
+    if all.len() < 2 {
+        return f.matches(&evt);
+    }
+    let (a, b) = all.split_at(1);
+    f.matches(&evt.map_props(|_| a.and_props(b)))
 }
 
 fn run_min(line: &str) -> String {
@@ -193,7 +210,9 @@ fn run_min(line: &str) -> String {
         }
         let f = min_filter(&args[0], &args[1])?;
         let ps = props(&args[2])?;
-        Some(format!("{}", with_event("m", &ps, |evt| f.matches(&evt))))
+        let r = with_event("m", &ps, |evt| f.matches(&evt));
+        let r3 = with_event("m", &ps, |evt| matches_split(&f, evt));
+        Some(if r == r3 { format!("{}", r) } else { format!("{}\tFAIL:and_props-split-differs({})", r, r3) })
     })()
     .unwrap_or_else(|| "bad-case".into())
 }
@@ -301,6 +320,23 @@ fn gen_c17(rng: &mut Rng, tier: Tier, n: usize) -> Vec<String> {
         let nregs = rng.usize(max_regs + 1);
         let mut paths: Vec<Vec<&str>> = Vec::new();
         let mut regs = Vec::new();
+        if rng.chance(1, 12) {
+            // a WIDE node: 9–13 distinct children of one parent (possibly the root) registered in random order, so
+            // that whatever keeps a node's children searchable has to cope with more than a handful
+            let parent: Vec<&str> = if rng.bool() { Vec::new() } else { gen_path(rng, 2) };
+            let mut kids: Vec<&str> = SEGS.to_vec();
+            for i in (1..kids.len()).rev() {
+                kids.swap(i, rng.usize(i + 1));
+            }
+            kids.truncate(9 + rng.usize(5));
+            for k in kids {
+                let mut p = parent.clone();
+                p.push(k);
+                let (mn, df) = gen_minf(rng);
+                regs.push(Sexp::tagged("p", vec![Sexp::str(&p.join("::")), mn, df]));
+                paths.push(p);
+            }
+        }
         for _ in 0..nregs {
             let (mn, df) = gen_minf(rng);
             if rng.chance(1, 8) {
